@@ -130,6 +130,24 @@ def rule_a2(ctx: Ctx) -> None:
                     if isinstance(st.value, ast.Call) and all(isinstance(a, ast.Name) or not ({n.id for n in ast.walk(a) if isinstance(n, ast.Name)} & (raw | reduced)) for a in st.value.args) \
                             and not ({n.id for n in ast.walk(st.value.func) if isinstance(n, ast.Name)} & (raw | reduced)):
                         continue  # the count is handed on as an argument (e.g. self.pattern.rotate(times)); nothing is derived from it here
+                    # pure integer arithmetic on the count (%, +, -, *, //, conditional on comparisons with constants): folded for a
+                    # window of integer counts wide enough for every branch and residue
+                    src = uses & raw
+                    if len(src) == 1 and not (uses - src) and not any(isinstance(n, (ast.Call, ast.Attribute, ast.Subscript)) for n in ast.walk(st.value)):
+                        from ..affine import fold_int
+                        (cn,) = src
+                        vals = {t: fold_int(st.value, {cn: t}) for t in range(-13, 14)}
+                        if all(v is not None for v in vals.values()):
+                            bad = [t for t, v in vals.items() if v != t % 4]
+                            if not bad:
+                                reduced.add(tgt.id)
+                                raw.discard(tgt.id)
+                                ctx.ok("C04-A2", fi.where, f"`{unparse(st)[:70]}` folds to count % 4 for every count in -13..13 (all branches, all residues)", st, fi)
+                                continue
+                            t = min(bad, key=abs)
+                            ctx.violation("C04-A2", fi, st, f"rotation count is normalised by `{unparse(st.value)[:80]}`: for a count of {t} it gives {vals[t]}, the quarter-turn count is {t % 4}", robust=True)
+                            verdict_done = True
+                            break
                     raise AnalysisError(f"{fi.where}: `{unparse(st)}` derives a value from the rotation count in an unrecognised way")
             for node in ast.walk(st):
                 if isinstance(node, (ast.If, ast.IfExp, ast.While)):
